@@ -153,7 +153,11 @@ class Classifier:
                     out.add('ZERO')
                     continue
                 if fn.startswith('helpers::Qcow2IoBuf::<T>::new'):
-                    out.add('IOBUF')
+                    # the bounce buffer the serialised header is copied into is the header
+                    if any((x.get('fn') or '').endswith('Qcow2Header::serialize_to_buf') for _i, x in body.calls()):
+                        out.add('HDR')
+                    else:
+                        out.add('IOBUF')
                     continue
                 if 'HostCluster::rb_slice_host' in fn or 'HostCluster::rb_host' in fn or 'HostCluster::rt_index' in fn:
                     out.add('OFF:RB')
